@@ -82,13 +82,14 @@ def run(ctx):
     ctx.exhaustive = False
     res = ctx.drive("bind/malb", "TestC06", beh=allb, label="C06/all", timeout=3000)
     if res is not None and not res.get("failures"):
-        # vacuity: every entry point was exercised, and both outcome classes were seen at
-        # every entry point that reports one
+        # vacuity, judged on the deterministic CONTROL cases only (the same for every
+        # seed: spec CtlEntries / IsControl in the harness): every entry point was
+        # exercised and answered both outcome classes where it reports one
         cov = res.get("coverage") or {}
         for e in ENTRIES:
             if not cov.get("entry:" + e):
                 ctx.inconclusive.append("no case reached entry point %s" % e)
             elif not e.startswith("gossip_"):
                 for cl in ("accepted", "rejected"):
-                    if not cov.get("class:%s:%s" % (e, cl)):
-                        ctx.inconclusive.append("entry point %s never answered %s" % (e, cl))
+                    if not cov.get("ctl:%s:%s" % (e, cl)):
+                        ctx.inconclusive.append("entry point %s answered no control case with %s" % (e, cl))
